@@ -10,6 +10,8 @@ import Autog.Lemmas.ComponentsTotal
 import Autog.Lemmas.TightTreeFuel
 import Autog.Lemmas.InitDfsFuel
 import Autog.Lemmas.BlockWide
+import Autog.Lemmas.Adj
+import Autog.Properties.C14
 /-! # C01 — Layout always returns
 
     PARTIAL. In the composed model `layoutModel` (Autog/Model/Pipeline.lean) every explicit `panic` of the modelled code, every
@@ -116,6 +118,33 @@ theorem C01_init_walk_never_out_of_fuel : type_of% @TreeInitDfs.initDfs_total :=
 /-- SinkColoring's block building: the climb of `setColor` goes one band up per call and so returns within `len(layers) + 2` -/
 theorem C01_setColor_total : type_of% @setColor_total := @setColor_total
 theorem C01_block_building_total : type_of% @scBlocks_total := @scBlocks_total
+
+/-- on the pipeline: adjacency consistency (`AdjL`) — true of the graph `Populate` builds from ANY edge list, kept by self-loop
+    stripping, by the two-cycle pre-pass and by every reversal — implies every well-formedness hypothesis of the totality theorems
+    of phase 1 and of the simplex walks; so both cycle tests of `phase1` (before and after breaking) and the depth-first breaker
+    return on every adjacency-consistent component -/
+theorem C01_phase1_first_test_total (g : G) (h : AdjL g) : ∃ b, hasCycles (removeTwoNodeCycles g) = .ok b :=
+  hasCycles_total _ (adjL_removeTwoNodeCycles g h).toAdj.edgesWF
+
+theorem C01_phase1_dfs_then_test_total (g : G) (h : AdjL g) :
+    ∃ g2, execDepthFirst (removeTwoNodeCycles g) = .ok g2 ∧ ∃ b, hasCycles g2 = .ok b := by
+  have h2 := adjL_removeTwoNodeCycles g h
+  obtain ⟨marked, hm⟩ := dfsMarked_total _ h2.toAdj.edgesWF
+  refine ⟨marked.foldl G.reverse (removeTwoNodeCycles g), by simp [execDepthFirst, hm, bind, Except.bind, pure, Except.pure], ?_⟩
+  -- marked edges are out-edges of the state, hence inside the edge store: the reversals keep consistency
+  have hin : ∀ e ∈ marked, e < (removeTwoNodeCycles g).edges.size := by
+    intro e he
+    obtain ⟨u, v, _, hmem, _, _⟩ := C14_dfs_minimal _ _ h2.toAdj.uniq marked hm e he
+    unfold outE at hmem
+    obtain ⟨e', he', heq⟩ := List.mem_map.1 hmem
+    have : e' = e := by simpa using congrArg Prod.fst heq
+    subst this
+    exact (h2.outs u e' he').1
+  exact hasCycles_total _ (adjL_foldl_reverse marked _ h2 hin).toAdj.edgesWF
+
+theorem C01_adj_implies_incWF : type_of% @Adj.incWF := @Adj.incWF
+theorem C01_adj_implies_edgesWF : type_of% @Adj.edgesWF := @Adj.edgesWF
+theorem C01_adj_kept_by_reverse : type_of% @adj_reverse := @adj_reverse
 
 theorem C01_cycle_test_total : type_of% @hasCycles_total := @hasCycles_total
 /-- the longest-path traversal returns on every well-formed acyclic state -/
